@@ -2,8 +2,151 @@
 
 package connectconformance
 
-import "testing"
+import (
+	"context"
+	"encoding/binary"
+	"fmt"
+	"io"
+	"strings"
+	"sync"
+	"testing"
+	"time"
+
+	"connectrpc.com/conformance/internal"
+	conformancev1 "connectrpc.com/conformance/internal/gen/proto/go/connectrpc/conformance/v1"
+	"connectrpc.com/conformance/internal/verifkit"
+	"google.golang.org/protobuf/proto"
+)
 
 // TestVerifC09ServerResponse: the length-prefixed server response read by the batch runner, at the size limit and in
 // any chunking (harness in c11_test.go, borrowed with "with": ["C11"]).
 func TestVerifC09ServerResponse(t *testing.T) { vfServerResponseSizes(t, "C09ServerResponse") }
+
+// TestVerifC09ClientStall: the runner's reader of a client's standard output (clientProcessRunner.consumeOutput), with
+// an in-process client that answers k requests, then takes the next one and stalls - before writing anything, inside
+// the length prefix, or inside the message. The request that is waiting must get its error callback within the
+// response period (20 s, counted from the moment the runner began to wait for the next message, so never more than
+// 20 s after the request was handed over) and the error must say how much had arrived.
+func TestVerifC09ClientStall(t *testing.T) {
+	en := verifkit.NewEnum(t, "C09ClientStall")
+	type row struct {
+		Answered int    `json:"answered"` // requests answered in full before the stall
+		StallAt  string `json:"stallAt"`  // nothing, prefix, message
+		GapMs    int    `json:"gapMs"`    // pause between the last answer and the next request (the reader is already waiting then)
+	}
+	var rows []row
+	for _, answered := range []int{0, 1, 3} {
+		for _, at := range []string{"nothing", "prefix", "message"} {
+			gap := 0
+			if answered == 1 {
+				gap = 300
+			}
+			rows = append(rows, row{answered, at, gap})
+		}
+	}
+	var replay row
+	if en.ReplayCase(&replay) {
+		rows = []row{replay}
+	}
+	frame := func(name string) []byte {
+		data, _ := proto.Marshal(&conformancev1.ClientCompatResponse{TestName: name, Result: &conformancev1.ClientCompatResponse_Response{Response: &conformancev1.ClientResponseResult{}}})
+		out := make([]byte, 4, 4+len(data))
+		binary.BigEndian.PutUint32(out, uint32(len(data)))
+		return append(out, data...)
+	}
+	release := make(chan struct{})
+	defer close(release)
+	var mu sync.Mutex
+	var wg sync.WaitGroup
+	for _, r := range rows {
+		wg.Add(1)
+		go func(r row) {
+			defer wg.Done()
+			client := func(ctx context.Context, _ []string, in io.ReadCloser, out, _ io.WriteCloser) error {
+				for i := 0; ; i++ {
+					req := &conformancev1.ClientCompatRequest{}
+					if err := internal.ReadDelimitedMessage(in, req, "runner", time.Minute, 1<<20); err != nil {
+						return nil
+					}
+					full := frame(req.TestName)
+					if i < r.Answered {
+						_, _ = out.Write(full)
+						continue
+					}
+					switch r.StallAt {
+					case "prefix":
+						_, _ = out.Write(full[:2])
+					case "message":
+						_, _ = out.Write(full[:4+(len(full)-4)/2])
+					}
+					select {
+					case <-release:
+					case <-ctx.Done():
+					}
+					return nil
+				}
+			}
+			runner, err := runClient(context.Background(), runInProcess([]string{"verif-stalling-client"}, client))
+			if err != nil {
+				return
+			}
+			defer runner.stop()
+			var viol error
+			type cb struct {
+				err error
+				at  time.Time
+			}
+			for i := 0; i <= r.Answered && viol == nil; i++ {
+				if i == r.Answered && r.GapMs > 0 {
+					time.Sleep(time.Duration(r.GapMs) * time.Millisecond)
+				}
+				name := fmt.Sprintf("verif/c09/case-%d", i)
+				got := make(chan cb, 4)
+				sent := time.Now()
+				if err := runner.sendRequest(&conformancev1.ClientCompatRequest{TestName: name}, func(_ string, _ *conformancev1.ClientCompatResponse, err error) {
+					got <- cb{err, time.Now()}
+				}); err != nil {
+					viol = verifkit.Violf("stall-send-refused", "request %d was refused: %v", i, err)
+					break
+				}
+				select {
+				case c := <-got:
+					waited := c.at.Sub(sent)
+					if i < r.Answered {
+						if c.err != nil {
+							viol = verifkit.Violf("stall-answered-failed", "request %d was answered in full but its callback got %v", i, c.err)
+						}
+						continue
+					}
+					size := len(frame(name)) - 4
+					want := map[string]string{"nothing": "timed out waiting for result from client", "prefix": "read 2/4 bytes of length prefix",
+						"message": fmt.Sprintf("read %d/%d bytes of message", size/2, size)}[r.StallAt]
+					switch {
+					case c.err == nil:
+						viol = verifkit.Violf("stall-no-error", "the client stalled (%s) but the waiting request got a response", r.StallAt)
+					case !strings.Contains(c.err.Error(), "timed out") || !strings.Contains(c.err.Error(), want):
+						viol = verifkit.Violf("stall-error-text", "stall at %s after %d answers: error %q does not say %q", r.StallAt, r.Answered, c.err, want)
+					case r.StallAt == "nothing" && strings.Contains(c.err.Error(), "bytes of"):
+						viol = verifkit.Violf("stall-error-text", "nothing arrived but the error names progress: %q", c.err)
+					case waited < 15*time.Second && r.Answered == 0 && r.GapMs == 0:
+						// (the wait began when the client was started, a moment before the request went out)
+						viol = verifkit.Violf("stall-early", "timeout error after only %v", waited)
+					}
+				case <-time.After(45 * time.Second):
+					if i < r.Answered {
+						return // the machine is too slow to judge
+					}
+					viol = verifkit.Violf("stall-no-timeout", "the client stalled (%s, after %d answers, request sent %dms after the last answer) and the waiting request had no error callback 45s after it was handed over; the period is %v", r.StallAt, r.Answered, r.GapMs, clientResponseTimeout)
+				}
+			}
+			mu.Lock()
+			defer mu.Unlock()
+			en.Rec.Observe(r, []string{"stall:" + r.StallAt, fmt.Sprintf("answered:%d", r.Answered)}, true)
+			if viol != nil {
+				en.Fail(r, viol)
+			}
+		}(r)
+	}
+	wg.Wait()
+	en.Done(true)
+}
